@@ -877,6 +877,9 @@ func ruleSealSites(r *Run, p *Program, rule string) {
 	n := 0
 	for _, st := range storesToField(p, "pogreb.segmentMeta.Full") {
 		if bv, isc := constBool(st.Val); isc && !bv {
+			// a sealed segment is never made writable again: a newer segment may already exist, and the one the
+			// datalog appends to must be the newest in sequence order
+			r.bad(rule, funcKey(st.Parent())+":unseals", p.Pos(st.Pos()), "a segment is marked not full again in "+funcKey(st.Parent())+": two segments are writable, swapSegment later appends to the one with the older sequence id, and recovery replays those records before older ones (old values win)")
 			continue
 		}
 		n++
